@@ -96,7 +96,7 @@ theorem reverseJourney_some (cx : Ctx) (s : RState) (bd : Int) (node : Nat) :
 theorem singleReverse_optimal {cx : Ctx} (w : RW cx cx.cs.rev) (hs : SortedRev cx.cs.rev) (hidx : cx.cs.revIdx = revIndex cx.cs.rev)
     (huni : ∀ c ∈ cx.cs.rev, c.effWait cx.p.minWait ≤ cx.p.minWait)
     (hand : (cx.accessFoot.map (·.stop)).Nodup) (haccNonneg : ∀ a ∈ cx.accessFoot, 0 ≤ a.time)
-    (hbound : ∀ c ∈ cx.cs.rev, c.dep < MAX_INT) (h0 : 0 ≤ cx.arrT)
+    (hbound : ∀ c ∈ cx.cs.rev, c.dep < MAX_INT) (h0 : 0 ≤ cx.arrT) (hnd : cx.depT = -1)
     {a0 : NTD} {e0 x0 : Conn} (hJ : AdmRev cx cx.cs.rev a0 e0 x0)
     (hd0 : 0 ≤ admDeparture cx a0 e0) (hdT : cx.arrT - admDeparture cx a0 e0 ≤ cx.p.maxTotal) :
     (∀ r, singleReverse cx (fun _ => true) = .ok r → admDeparture cx a0 e0 ≤ r.departureTime) ∧
@@ -158,7 +158,7 @@ theorem singleReverse_optimal {cx : Ctx} (w : RW cx cx.cs.rev) (hs : SortedRev c
     have hkey : ∃ a1 ∈ cx.accessFoot, ∃ b, AccGe cx s a1.stop b ∧ e0.dep - e0.effWait cx.p.minWait - a0.time ≤ b - a1.time ∧
         1 ≤ s.count := by
       by_cases hcut : θ ≤ e0.arr
-      · obtain ⟨hacc, hcnt⟩ := hC.acc e0 heP x0 hxP ⟨hcu, hdis, t, hrP, hrt⟩ hJ.trip hJ.seq hJ.board hcut
+      · obtain ⟨hacc, hcnt⟩ := hC.acc e0 heP x0 hxP ⟨hcu, hdis, t, hrP, hrt⟩ hJ.trip hJ.seq hJ.board (Or.inl hnd) hcut
         exact ⟨a0, hJ.acc, _, by rw [hJ.stop]; exact hacc, Int.le_refl _, hcnt⟩
       · -- cut by the break after the first reached access stop: that stop's boarding is better
         have hθ : s.reached = true ∧ cx.maxAccess ≥ 0 ∧ θ = s.tentAccDep - cx.maxAccess - cx.p.minWait := by
@@ -171,7 +171,7 @@ theorem singleReverse_optimal {cx : Ctx} (w : RW cx cx.cs.rev) (hs : SortedRev c
         have hmax := maxTime_ge cx.accessFoot a1 hm1.1
         have hu1 := huni c1 (hsubd c1 hc1)
         have hu0 := huni e0 hJ.he
-        refine ⟨a1, hm1.1, _, by rw [hm1.2]; exact hacc1, ?_, hcnt1⟩
+        refine ⟨a1, hm1.1, _, by rw [hm1.2]; exact hacc1 (Or.inl hnd), ?_, hcnt1⟩
         have : cx.maxAccess = maxTime cx.accessFoot := rfl
         omega
     obtain ⟨a1, ha1, b, hacc1, hb1, hcnt⟩ := hkey
@@ -196,7 +196,7 @@ theorem RW_dataset' {ds : Dataset} (hwf : WFData ds) (p : Params) (hmw : 0 ≤ p
         a (routerLookup ds.egress p.maxEgress) (-1) p.time) (ds.connSetOf (ds.scenarioOf p)).rev := by
   have hsub := connSetOf_rev_sub ds (ds.scenarioOf p)
   have hw := timeWF_dataset hwf p hmw hmt (ds.scenarioOf p) a (routerLookup ds.egress p.maxEgress) (-1) p.time
-  refine ⟨?_, hw.depMono, hw.arrMono, ?_, hw.footNonneg, ?_, hmw, ?_, ?_, rfl⟩
+  refine ⟨?_, hw.depMono, hw.arrMono, ?_, hw.footNonneg, ?_, hmw, ?_, ?_⟩
   · intro c hc; exact hpos c (hsub c hc)
   · intro a' ha b hb; exact conns_unique hwf.toWFSchedule a' (hsub a' ha) b (hsub b hb)
   · intro c hc
@@ -245,7 +245,7 @@ theorem C04_optimal (ds : Dataset) (hwf : WFData ds) (p : Params) (hp : p.forwar
       unfold Dataset.lineMinWait
       split <;> split <;> omega)
     (routerLookup_nodup _ _ hand) (fun a ha => hacc a (List.mem_filter.mp ha).1)
-    (fun c hc => hb c (hsub c hc)) h0 hJ hd0 hdT
+    (fun c hc => hb c (hsub c hc)) h0 rfl hJ hd0 hdT
   unfold calculateSingle calculateSingleCS calculateSingleWith
   show (∀ r, (if (routerLookup ds.access p.maxAccess).isEmpty = true ∧ (routerLookup ds.egress p.maxEgress).isEmpty = true then _
       else _) = Outcome.ok r → _) ∧ _
